@@ -66,6 +66,20 @@ package server
 //@   loop 3 step forall f bgp.Family :: has(remote, f) ==> header(has(remote, f)) || f == family
 //@   loop 4 invariant forall f bgp.Family :: has(remote, f) ==> pre(has(remote, f)) || f == family
 //@   loop 5 invariant forall f bgp.Family :: has(remote, f) ==> pre(has(remote, f)) || f == family
+// from C07 "every ... NOTIFICATION ...": a Cease asked for through the API goes to the session that is up; it is not
+// queued for a peer that has none (the queue is only read in Established, so it would greet the next session)
+//@ props C07
+//@ func (*peer).sendNotification
+//@   claims at-call
+//@   at-call nonblockSendChannel( requires peer.State() == bgp.BGP_FSM_ESTABLISHED
+
+// the hold time of a session is the smaller of the configured one and the one in the peer's OPEN; keepalives go
+// out every third of it when that is less than configured
+//@ func negotiateTimers
+//@   requires conf != nil && body != nil
+//@   modifies conf.Timers.State.NegotiatedHoldTime, conf.Timers.State.KeepaliveInterval
+//@   ensures conf.Timers.State.NegotiatedHoldTime == (float64(body.HoldTime) > conf.Timers.Config.HoldTime ? conf.Timers.Config.HoldTime : float64(body.HoldTime))
+//@   ensures conf.Timers.State.KeepaliveInterval == (conf.Timers.State.NegotiatedHoldTime < conf.Timers.Config.HoldTime ? conf.Timers.State.NegotiatedHoldTime / 3 : conf.Timers.Config.KeepaliveInterval)
 //@ func (*fsm).stateChange
 //@   tag C08 C12 C07
 //@   claims at-call at-return
@@ -73,7 +87,8 @@ package server
 //@   at-call fsm.gConf.IsConfederationMember( requires conf.Timers.State.KeepaliveInterval == (conf.Timers.State.NegotiatedHoldTime < conf.Timers.Config.HoldTime ? conf.Timers.State.NegotiatedHoldTime / 3 : conf.Timers.Config.KeepaliveInterval)
 // ... and the hold timer of OpenConfirm is already the negotiated one (RFC 4271 8.2.2, event 19: on receipt of the
 // OPEN the hold timer is set to the negotiated value): the value is in place when OpenConfirm is entered
-//@   at-return requires nextState == bgp.BGP_FSM_OPENCONFIRM && fsm.recvOpen != nil && typeOf(fsm.recvOpen.Body) == (*bgp.BGPOpen) ==> conf.Timers.State.NegotiatedHoldTime == (float64(fsm.recvOpen.Body.(*bgp.BGPOpen).HoldTime) > conf.Timers.Config.HoldTime ? conf.Timers.Config.HoldTime : float64(fsm.recvOpen.Body.(*bgp.BGPOpen).HoldTime))
+//@   at-return requires nextState == bgp.BGP_FSM_OPENCONFIRM ==> called(negotiateTimers)
+//@   at-call negotiateTimers(&conf, fsm.recvOpen.Body requires arg1 == fsm.recvOpen.Body.(*bgp.BGPOpen)
 //@   at-call fsm.gConf.IsConfederationMember( requires fsm.isEBGP == (remoteAS != localAS)
 // from C08: "peer type taken from the real remote AS": with no configured peer AS the reported peer type is internal
 // exactly when the AS in the peer's OPEN is the session's local AS; otherwise the configured type is reported
